@@ -29,6 +29,7 @@ WITNESSES = [
     # (p, stream): deterministic witnesses of the two recorded known findings
     (0.25, [1.7e308, -1.7e308, 1.7e308, -1.7e308, 1.7e308, -1.7e308, 1.7e308]),
     (0.5, [5e-324, 5e-324]),
+    (0.25, [1e308, -1e308, 1e308, 1e308, -1e308, 0.0, -1.7e308]),    # the overflowed heights cancel to NaN at the 7th observation
 ]
 
 
